@@ -158,7 +158,7 @@ SerdeRel(op, a, r) ==
 \* Integer projections of floating-point results (computed by the recorder in f64 from the native values).
 \* The model knows the exact rational inputs, so it knows which side of each threshold they are on.
 IsIntTup(x, n) == x.t = "Tup" /\ Len(x.c) = n
-ProjOps == {"slerp_proj", "nlerp_proj", "slerp_axis_proj", "look_proj", "arc_proj", "small_rot_proj", "norm_proj", "trig_big_proj", "tiny_inv_proj", "slab_proj", "scale_proj", "cross_near_proj", "mm_col_proj", "look_mag_proj", "deep_proj", "angle_near_proj", "lerp_end_proj", "unit_roundtrip", "normalize_native", "turn_div_exact", "full_turn_value", "euler_proj"}
+ProjOps == {"slerp_proj", "nlerp_proj", "slerp_axis_proj", "look_proj", "arc_proj", "small_rot_proj", "norm_proj", "trig_big_proj", "tiny_inv_proj", "slab_proj", "scale_proj", "cross_near_proj", "mm_col_proj", "look_mag_proj", "deep_proj", "angle_near_proj", "lerp_end_proj", "dec_concat_proj", "fov_proj", "unit_roundtrip", "normalize_native", "turn_div_exact", "full_turn_value", "euler_proj"}
 ProjRel(op, k, a, r) ==
   LET wide == k = "f32" IN
   CASE op \in {"slerp_proj", "nlerp_proj"} ->
@@ -242,9 +242,16 @@ ProjRel(op, k, a, r) ==
          /\ Sc(a, 1) \in {"m4_invert", "m4_inverse_transform", "m3_invert", "m2_invert", "m4_det", "m3_det", "m4_transform_point", "from_homogeneous",
                           "q_invert", "q_normalize", "v3_normalize", "v2_normalize", "v4_normalize", "v3_magnitude", "v3_angle", "v2_angle",
                           "v3_project_on", "v3_cross", "v3_dot", "from_arc", "v3_is_zero", "v4_is_zero", "v2_is_zero", "v2_perp_dot",
-                          "v3_cross_both", "v3_dot_both", "v2_perp_dot_both", "v3_angle_both", "v2_angle_both", "v3_project_on_both"}
+                          "v3_cross_both", "v3_dot_both", "v2_perp_dot_both", "v3_angle_both", "v2_angle_both", "v3_project_on_both",
+                          "m4_inv_resid", "m3_inv_resid", "m2_inv_resid"}
          /\ (Sc(a, 1) = "from_homogeneous" => a[3].c[4] # Zero)
          /\ r.c[1].c[1] <= 64 /\ r.c[2].c[1] = TRUE
+    \* C08: concat(t1, t2)(p) = t1(t2(p)) for transforms with scales and displacements over many orders of magnitude
+    [] op = "dec_concat_proj" -> /\ IsIntTup(r, 2) /\ Dot(a[2].c, a[2].c) = One /\ Dot(a[3].c, a[3].c) = One
+                                 /\ r.c[1].c[1] <= 64 /\ r.c[2].c[1] = TRUE
+    \* C10 at the ends of the field-of-view range (1e-6 .. pi - 1e-6): accepted, the top and right edges of the near rectangle go to +1
+    [] op = "fov_proj" -> /\ IsIntTup(r, 3) /\ RGt(Sc(a, 3), Zero) /\ RGt(Sc(a, 4), Sc(a, 3))
+                          /\ r.c[1].c[1] = TRUE /\ r.c[2].c[1] <= 64 /\ r.c[3].c[1] <= 64
     \* C10, far = near * 1e3 .. 1e12: accepted, near plane to -1 and far plane to +1 to a few eps
     [] op = "deep_proj" -> /\ IsIntTup(r, 3) /\ RGt(Sc(a, 2), Zero) /\ r.c[1].c[1] = TRUE /\ r.c[2].c[1] <= 64 /\ r.c[3].c[1] <= 64
     \* C11, angle of nearly (anti)parallel vectors in 2-D and 3-D: within ten millionths of the small angle, both argument orders
